@@ -1,6 +1,6 @@
 import BM.Props.C01
 import BM.Props.SrcPin.C01
-import BM.Props.OracleModel
+import BM.Props.OracleModelC01
 /- Top module of property C01: its theorems (BM.Props.C01) and the statement of which units of /repo's
    source its model and proofs were written against (BM/Props/SrcPin/C01.lean, re-checked against the
    regenerated fingerprints on every run).  Only `./check C01` builds this module, so a change to a
